@@ -52,6 +52,7 @@ class AtomGraph:
         mol = Chem.EditableMol(Chem.MolFromSmiles(""))
         for node in self.graph.nodes(data=True):
             atom = Chem.Atom(node[1]["atomic_num"])
+            atom.SetFormalCharge(int(node[1].get("formal_charge", 0)))
             mol.AddAtom(atom)
         for edge in self.graph.edges(data=True):
             bond_type = Chem.BondType(edge[2]["bond_type"])
@@ -329,6 +330,7 @@ class AtomGraph:
         self.graph.add_node(
             node_id,
             atomic_num=node_data["atomic_num"],
+            formal_charge=node_data.get("formal_charge", 0),
             stochastic_node=node,
             mn=node_data["mn"],
             mw=node_data["mw"],
